@@ -228,4 +228,161 @@ theorem decPrimsC_rec : Rec decPrimsC decV (fun _ => True) where
   setRegsX := fun _ _ _ => trivial
   addLinkX := fun _ _ _ => trivial
 
+/-! ### the encoder of compressed data -/
+
+theorem nextCol_shape (dd : DDesc) (s : St) (c : Col) (s1 : St) (h : nextCol dd s = .ok (c, s1)) :
+    s1 = { (s.pushDesc dd) with idx := s.idx + 1 } ∧ ∃ v, (curVals s)[s.idx]? = some v := by
+  unfold nextCol at h
+  simp only [bind, Except.bind, pure, Except.pure] at h
+  cases hm : (s.pushDesc dd).vals.mapM (fun l => nthVal l (s.pushDesc dd).idx) with
+  | error e => simp [hm] at h
+  | ok values =>
+    simp only [hm] at h
+    cases values with
+    | nil => simp at h
+    | cons v0 vs =>
+      simp only at h
+      injection h with h
+      injection h with _ h2
+      refine ⟨h2.symm, v0, ?_⟩
+      have hv : (s.pushDesc dd).vals = s.vals := rfl
+      have hi : (s.pushDesc dd).idx = s.idx := rfl
+      rw [hv, hi] at hm
+      unfold curVals
+      cases hs : s.vals with
+      | nil => rw [hs] at hm; simp [List.mapM_nil, pure, Except.pure] at hm
+      | cons l r =>
+        rw [hs] at hm
+        rw [List.mapM_cons] at hm
+        simp only [bind, Except.bind, pure, Except.pure] at hm
+        cases hn : nthVal l s.idx with
+        | error e => simp [hn] at hm
+        | ok w =>
+          simp only [hn] at hm
+          cases hr : r.mapM (fun l => nthVal l s.idx) with
+          | error e => simp [hr] at hm
+          | ok ws =>
+            simp only [hr] at hm
+            injection hm with hm
+            injection hm with hm1 _
+            subst hm1
+            exact nthVal_some _ _ _ hn
+
+theorem encStepC_of {s s1 s' : St} {dd : DDesc} {c : Col} (h1 : nextCol dd s = .ok (c, s1))
+    (h2 : ∃ b, s' = { s1 with bits := b }) : ∃ v, EncStep s s' dd v ∧ s'.regs = s.regs := by
+  obtain ⟨e1, v, hv⟩ := nextCol_shape _ _ _ _ h1
+  obtain ⟨b, e2⟩ := h2
+  subst e2; subst e1
+  exact ⟨v, ⟨rfl, rfl, rfl, rfl, hv⟩, rfl⟩
+
+theorem encNumericC_step (dd : DDesc) (n sc r : Int) (s s' : St) (h : encNumericC dd n sc r s = .ok s') :
+    ∃ v, EncStep s s' dd v ∧ s'.regs = s.regs := by
+  unfold encNumericC at h
+  simp only [bind, Except.bind] at h
+  cases h1 : nextCol dd s with
+  | error e => simp [h1] at h
+  | ok p =>
+    obtain ⟨c, s1⟩ := p
+    simp only [h1] at h
+    cases hw : natWidth n with
+    | error e => simp [hw] at h
+    | ok w =>
+      simp only [hw] at h
+      split at h
+      · cases h
+      · exact encStepC_of h1 (write_shape _ _ _ h)
+
+theorem encCodeflagC_step (dd : DDesc) (n : Nat) (s s' : St) (h : encCodeflagC dd n s = .ok s') :
+    ∃ v, EncStep s s' dd v ∧ s'.regs = s.regs := by
+  unfold encCodeflagC at h
+  simp only [bind, Except.bind] at h
+  cases h1 : nextCol dd s with
+  | error e => simp [h1] at h
+  | ok p =>
+    obtain ⟨c, s1⟩ := p
+    simp only [h1] at h
+    split at h
+    · cases h
+    · exact encStepC_of h1 (write_shape _ _ _ h)
+
+theorem encStringC_step (dd : DDesc) (n : Nat) (s s' : St) (h : encStringC dd n s = .ok s') :
+    ∃ v, EncStep s s' dd v ∧ s'.regs = s.regs := by
+  unfold encStringC at h
+  simp only [bind, Except.bind] at h
+  cases h1 : nextCol dd s with
+  | error e => simp [h1] at h
+  | ok p =>
+    obtain ⟨c, s1⟩ := p
+    simp only [h1] at h
+    split at h
+    · cases h
+    · exact encStepC_of h1 (write_shape _ _ _ h)
+
+theorem encConstantC_step (dd : DDesc) (c : Int) (s s' : St) (h : encConstantC dd c s = .ok s') :
+    ∃ v, EncStep s s' dd v ∧ s'.regs = s.regs := by
+  unfold encConstantC at h
+  simp only [bind, Except.bind, pure, Except.pure] at h
+  cases h1 : nextCol dd s with
+  | error e => simp [h1] at h
+  | ok p =>
+    obtain ⟨col, s1⟩ := p
+    simp only [h1] at h
+    split at h
+    · injection h with h; subst h
+      exact encStepC_of h1 ⟨s1.bits, rfl⟩
+    · cases h
+
+theorem encNewRefvalC_step (e : Elem) (n : Nat) (s s' : St) (h : encNewRefvalC e n s = .ok s') :
+    ∃ v, EncStep s s' (.plain e) v := by
+  unfold encNewRefvalC at h
+  simp only [bind, Except.bind] at h
+  cases h1 : nextCol (.plain e) s with
+  | error err => simp [h1] at h
+  | ok p =>
+    obtain ⟨c, s1⟩ := p
+    simp only [h1] at h
+    obtain ⟨e1, v, hv⟩ := nextCol_shape _ _ _ _ h1
+    split at h
+    · cases h
+    · split at h
+      · next i _ =>
+        cases hw : (setNewRefval s1 e.id i).write (fieldInt i n) with
+        | error err => simp [hw] at h
+        | ok s2 =>
+          simp only [hw] at h
+          obtain ⟨b1, e2⟩ := write_shape _ _ _ hw
+          obtain ⟨b2, e3⟩ := write_shape _ _ _ h
+          subst e3; subst e2; subst e1
+          exact ⟨v, rfl, rfl, rfl, rfl, hv⟩
+      · cases h
+
+theorem encPrimsC_quiet : Quiet encPrimsC where
+  numeric := fun dd n sc r s s' h => let ⟨_, a, b⟩ := encNumericC_step dd n sc r s s' h; same_of_step a b
+  string := fun dd n s s' h => let ⟨_, a, b⟩ := encStringC_step dd n s s' h; same_of_step a b
+  codeflag := fun dd n s s' h => let ⟨_, a, b⟩ := encCodeflagC_step dd n s s' h; same_of_step a b
+  constant := fun dd c s s' h => let ⟨_, a, b⟩ := encConstantC_step dd c s s' h; same_of_step a b
+
+theorem encPrimsC_rec : Rec encPrimsC encV encX where
+  quiet := encPrimsC_quiet
+  numeric := fun dd n sc r s s' h => let ⟨v, a, _⟩ := encNumericC_step dd n sc r s s' h; ⟨v, a.encV⟩
+  string := fun dd n s s' h => let ⟨v, a, _⟩ := encStringC_step dd n s s' h; ⟨v, a.encV⟩
+  codeflag := fun dd n s s' h => let ⟨v, a, _⟩ := encCodeflagC_step dd n s s' h; ⟨v, a.encV⟩
+  constant := fun dd c s s' h => let ⟨v, a, _⟩ := encConstantC_step dd c s s' h; ⟨v, a.encV⟩
+  newRefval := fun e n s s' h => let ⟨v, a⟩ := encNewRefvalC_step e n s s' h; ⟨a.descs, v, a.encV⟩
+  lastValues := encLastValues_spec
+  numericL := fun dd n sc r s s' h => let ⟨_, a, _⟩ := encNumericC_step dd n sc r s s' h; by rw [a.vals]
+  stringL := fun dd n s s' h => let ⟨_, a, _⟩ := encStringC_step dd n s s' h; by rw [a.vals]
+  codeflagL := fun dd n s s' h => let ⟨_, a, _⟩ := encCodeflagC_step dd n s s' h; by rw [a.vals]
+  constantL := fun dd c s s' h => let ⟨_, a, _⟩ := encConstantC_step dd c s s' h; by rw [a.vals]
+  newRefvalL := fun e n s s' h => let ⟨_, a⟩ := encNewRefvalC_step e n s s' h; by rw [a.vals]
+  numericX := fun dd n sc r s s' h => let ⟨_, a, _⟩ := encNumericC_step dd n sc r s s' h; a.encX
+  stringX := fun dd n s s' h => let ⟨_, a, _⟩ := encStringC_step dd n s s' h; a.encX
+  codeflagX := fun dd n s s' h => let ⟨_, a, _⟩ := encCodeflagC_step dd n s s' h; a.encX
+  constantX := fun dd c s s' h => let ⟨_, a, _⟩ := encConstantC_step dd c s s' h; a.encX
+  newRefvalX := fun e n s s' h => let ⟨_, a⟩ := encNewRefvalC_step e n s s' h; a.encX
+  setRegs := encV_setRegs
+  addLink := encV_addLink
+  setRegsX := fun _ _ x => x
+  addLinkX := fun _ _ x => x
+
 end Bufr.C07
